@@ -904,13 +904,16 @@ class NestedContainer(Task, Iterable):
     def __dask_tokenize__(self):
         from dask.tokenize import tokenize
 
+        tokens = [tokenize(a) for a in self.args]
+        if self.klass is set:
+            # Only sets are unordered; for lists and tuples the order of the
+            # elements is part of the value (Dict pairs keys with values itself).
+            tokens = sorted(tokens)
         return (
             type(self).__name__,
             self.klass,
-            sorted(tokenize(a) for a in self.args),
+            tokens,
         )
-
-        return super().__dask_tokenize__()
 
     @staticmethod
     def to_container(*args, constructor):
@@ -963,6 +966,19 @@ class Dict(NestedContainer, Mapping):
     def __repr__(self):
         values = ", ".join(f"{k}: {v}" for k, v in batched(self.args, 2, strict=True))
         return f"Dict({values})"
+
+    def __dask_tokenize__(self):
+        from dask.tokenize import tokenize
+
+        # Insertion order does not matter, which key a value belongs to does
+        return (
+            type(self).__name__,
+            self.klass,
+            sorted(
+                (tokenize(k), tokenize(v))
+                for k, v in batched(self.args, 2, strict=True)
+            ),
+        )
 
     def substitute(
         self, subs: dict[KeyType, KeyType | GraphNode], key: KeyType | None = None
